@@ -117,19 +117,19 @@ package utils
 //@ func (*UnsignedChunkReader) validateChecksum
 //@   frame none
 //@   ensures {C12} [a-mismatch-is-not-a-clean-end] ret0 != io.EOF
-//@   at-return {C12} [nil-only-for-equal-checksums] when ret0 == nil :: ensures called("base64.Encoding.EncodeToString") && result("base64.Encoding.EncodeToString", 0) == ucr.expectedChecksum \
+//@   at-return {C06,C12} [nil-only-for-equal-checksums] when ret0 == nil :: ensures called("base64.Encoding.EncodeToString") && result("base64.Encoding.EncodeToString", 0) == ucr.expectedChecksum \
 //@        && arg("base64.Encoding.EncodeToString", 1) == result("hash.Hash.Sum", 0)
 //@ func (*UnsignedChunkReader) readTrailer
 //@   ensures {C12} [a-cut-trailer-is-not-a-clean-end] ret0 != io.EOF
-//@   at-return {C12} [nil-only-after-the-checksum-matched] when ret0 == nil :: ensures called("utils.UnsignedChunkReader.validateChecksum") && result("utils.UnsignedChunkReader.validateChecksum", 0) == nil
+//@   at-return {C06,C12} [nil-only-after-the-checksum-matched] when ret0 == nil :: ensures called("utils.UnsignedChunkReader.validateChecksum") && result("utils.UnsignedChunkReader.validateChecksum", 0) == nil
 // C02: the deferred request signature is verified by the reader underneath when the raw stream reports its end, so the
 // decoder must have seen that end before it reports a complete stream
 //@   at-return {C02,C12} [nil-only-after-the-stream-reported-its-end] when ret0 == nil :: ensures called("bufio.Reader.ReadByte") && result("bufio.Reader.ReadByte", 1) == io.EOF
 //@ func (*UnsignedChunkReader) Read
 // C20: the announced chunk size is unauthenticated input; whatever Read allocates itself is bounded by the caller's buffer
 //@   at-call? builtin.make {C20} [announced-size-does-not-size-an-allocation] requires $1 <= len(p)
-//@   at-call io.CopyN {C12} [payload-is-read-through-the-hashing-tee] requires called("io.TeeReader") && $1 == result("io.TeeReader", 0) && arg("io.TeeReader", 0) == iface(ucr.reader) && arg("io.TeeReader", 1) == ucr.hasher && $2 == chunkSize
-//@   at-return {C12} [end-of-stream-only-after-the-trailer-was-validated] when ret1 == io.EOF :: ensures called("utils.UnsignedChunkReader.readTrailer") && result("utils.UnsignedChunkReader.readTrailer", 0) == nil
+//@   at-call io.CopyN {C06,C12} [payload-is-read-through-the-hashing-tee] requires called("io.TeeReader") && $1 == result("io.TeeReader", 0) && arg("io.TeeReader", 0) == iface(ucr.reader) && arg("io.TeeReader", 1) == ucr.hasher && $2 == chunkSize
+//@   at-return {C06,C12} [end-of-stream-only-after-the-trailer-was-validated] when ret1 == io.EOF :: ensures called("utils.UnsignedChunkReader.readTrailer") && result("utils.UnsignedChunkReader.readTrailer", 0) == nil
 //
 // Signed reader: Read reports io.EOF only when parseAndRemoveChunkInfo did; parseAndRemoveChunkInfo reports it (other
 // than by handing on the answer of its own recursive call) only after the signature of the terminating chunk and,
@@ -172,30 +172,30 @@ package utils
 //@ func (*ChunkReader) checkSignature
 //@   ensures {C02,C12} [whether-the-raw-stream-ended-is-left-alone] cr.isEOF == old(cr.isEOF)
 //@   ensures {C12} [not-a-clean-end] ret0 != io.EOF
-//@   at-return {C12} [nil-only-for-the-computed-signature] when ret0 == nil :: ensures old(cr.parsedSig) == result("hex.EncodeToString", 0) && called("utils.hmac256")
+//@   at-return {C06,C12} [nil-only-for-the-computed-signature] when ret0 == nil :: ensures old(cr.parsedSig) == result("hex.EncodeToString", 0) && called("utils.hmac256")
 //@ func (*ChunkReader) verifyChecksum
 //@   ensures {C02,C12} [whether-the-raw-stream-ended-is-left-alone] cr.isEOF == old(cr.isEOF)
 //@   ensures {C12} [not-a-clean-end] ret0 != io.EOF
-//@   at-return {C12} [nil-only-for-equal-checksums] when ret0 == nil :: ensures result("base64.Encoding.EncodeToString", 0) == cr.parsedChecksum
+//@   at-return {C06,C12} [nil-only-for-equal-checksums] when ret0 == nil :: ensures result("base64.Encoding.EncodeToString", 0) == cr.parsedChecksum
 //@ func (*ChunkReader) verifyTrailerSignature
 //@   ensures {C02,C12} [whether-the-raw-stream-ended-is-left-alone] cr.isEOF == old(cr.isEOF)
 //@   ensures {C12} [not-a-clean-end] ret0 != io.EOF
-//@   at-return {C12} [nil-only-for-the-computed-signature] when ret0 == nil :: ensures result("hex.EncodeToString", 0) == cr.trailerSig
+//@   at-return {C06,C12} [nil-only-for-the-computed-signature] when ret0 == nil :: ensures result("hex.EncodeToString", 0) == cr.trailerSig
 //@ func (*ChunkReader) parseAndRemoveChunkInfo
 //@   arith assumed
 //@   ensures {C02,C12} [whether-the-raw-stream-ended-is-left-alone] cr.isEOF == old(cr.isEOF)
 //@   let recursed = called("utils.ChunkReader.parseAndRemoveChunkInfo")
 //@   at-call utils.ChunkReader.parseChunkHeaderBytes {C06,C12} [a-pending-signature-is-verified-before-the-next-header] requires old(cr.parsedSig) == "" \
 //@        || (called("utils.ChunkReader.checkSignature") && result("utils.ChunkReader.checkSignature", 0) == nil)
-//@   at-return {C12} [end-only-after-the-final-signature-was-verified] when ret1 == io.EOF && !recursed :: ensures called("utils.ChunkReader.checkSignature") && result("utils.ChunkReader.checkSignature", 0) == nil
-//@   at-return {C12} [end-only-after-the-trailer-was-verified] when ret1 == io.EOF && !recursed && cr.trailer != "" :: ensures called("utils.ChunkReader.verifyChecksum") && result("utils.ChunkReader.verifyChecksum", 0) == nil \
+//@   at-return {C06,C12} [end-only-after-the-final-signature-was-verified] when ret1 == io.EOF && !recursed :: ensures called("utils.ChunkReader.checkSignature") && result("utils.ChunkReader.checkSignature", 0) == nil
+//@   at-return {C06,C12} [end-only-after-the-trailer-was-verified] when ret1 == io.EOF && !recursed && cr.trailer != "" :: ensures called("utils.ChunkReader.verifyChecksum") && result("utils.ChunkReader.verifyChecksum", 0) == nil \
 //@        && called("utils.ChunkReader.verifyTrailerSignature") && result("utils.ChunkReader.verifyTrailerSignature", 0) == nil
 //@ func (*ChunkReader) Read
 // C02: the request signature is verified by the reader underneath when the raw stream reports its end, so the decoder
 // reports a complete payload only after it has seen that end (and bytes after the terminating chunk are refused)
 //@   at-return {C02,C12} [end-of-stream-only-after-the-raw-stream-ended] when ret1 == io.EOF :: ensures result("io.Reader.Read", 1) == io.EOF \
 //@        || (called("utils.ChunkReader.expectEnd") && result("utils.ChunkReader.expectEnd", 0) == nil)
-//@   at-return {C12} [end-of-stream-only-from-the-terminating-chunk] when ret1 == io.EOF :: ensures called("utils.ChunkReader.parseAndRemoveChunkInfo") && result("utils.ChunkReader.parseAndRemoveChunkInfo", 1) == io.EOF
+//@   at-return {C06,C12} [end-of-stream-only-from-the-terminating-chunk] when ret1 == io.EOF :: ensures called("utils.ChunkReader.parseAndRemoveChunkInfo") && result("utils.ChunkReader.parseAndRemoveChunkInfo", 1) == io.EOF
 //
 // Selection: the decoder returned is the one built for the declared payload type, handed back as it is.
 //@ func getPayloadTypeNotSupportedErr
